@@ -162,15 +162,17 @@ def kind_of(p, K):
 class Sym:
     """Canonical expressions and formulas of one function body."""
 
-    def __init__(self, fn_node=None, roles=None, kinds=None, consts=None, defs=None, call_eval=None):
+    def __init__(self, fn_node=None, roles=None, kinds=None, consts=None, defs=None, call_eval=None, records=None, nonnull=None):
         self.node = fn_node
+        self.records = records or {}  # canonical text of a record value -> its field names in order (x.field is x[i])
+        self.nonnull = nonnull or set()  # canonical texts known never to be None
         self.roles = {}
         for k, v in (roles or {}).items():
             self.roles[k] = ast.parse(v, mode="eval").body if isinstance(v, str) else v
         self.defs = defs if defs is not None else (single_assignments(fn_node) if fn_node is not None else {})
         self.kinds = kinds or {}  # canonical subject text -> f(class name) -> True / False / None
         self.consts = consts or {}  # canonical text -> python value
-        self.call_eval = call_eval  # f(call ast, sym) -> (True, value) | None
+        self.call_eval = call_eval  # f(call ast, sym) -> the canonical expression (ast.Constant for constants) the call returns | None
 
     def X(self, expr, _depth=0):
         """expr with locals replaced by their role / (single-assignment temporaries) their defining expression."""
@@ -187,11 +189,39 @@ class Sym:
             def visit_Lambda(self, n):
                 return n
 
+            def visit_JoinedStr(self, n):
+                # f"{axis}_cells" with a constant axis is a constant
+                self.generic_visit(n)
+                parts = []
+                for v in n.values:
+                    if isinstance(v, ast.Constant) and isinstance(v.value, str):
+                        parts.append(v.value)
+                    elif isinstance(v, ast.FormattedValue) and isinstance(v.value, ast.Constant) and isinstance(v.value.value, (str, int)) and v.conversion == -1 and v.format_spec is None:
+                        parts.append(str(v.value.value))
+                    else:
+                        return n
+                return ast.copy_location(ast.Constant(value="".join(parts)), n)
+
+            def visit_BinOp(self, n):
+                self.generic_visit(n)
+                if isinstance(n.op, ast.Add) and isinstance(n.left, ast.Constant) and isinstance(n.right, ast.Constant) and isinstance(n.left.value, str) and isinstance(n.right.value, str):
+                    return ast.copy_location(ast.Constant(value=n.left.value + n.right.value), n)
+                return n
+
+            def visit_Attribute(self, n):
+                self.generic_visit(n)
+                # a field of a record (NamedTuple / dataclass) read by name is the element at its position
+                if sym.records and isinstance(n.ctx, ast.Load):
+                    fields = sym.records.get(unparse(n.value))
+                    if fields and n.attr in fields:
+                        return ast.copy_location(ast.Subscript(value=n.value, slice=ast.Constant(value=fields.index(n.attr)), ctx=ast.Load()), n)
+                return n
+
             def visit_Call(self, n):
                 self.generic_visit(n)
                 # getattr(x, "name", None) reads x.name (None when it was never set)
-                if isinstance(n.func, ast.Name) and n.func.id == "getattr" and len(n.args) == 3 and not n.keywords and isinstance(n.args[1], ast.Constant) \
-                        and isinstance(n.args[1].value, str) and n.args[1].value.isidentifier() and isinstance(n.args[2], ast.Constant) and n.args[2].value is None:
+                if isinstance(n.func, ast.Name) and n.func.id == "getattr" and len(n.args) in (2, 3) and not n.keywords and isinstance(n.args[1], ast.Constant) \
+                        and isinstance(n.args[1].value, str) and n.args[1].value.isidentifier() and (len(n.args) == 2 or isinstance(n.args[2], ast.Constant) and n.args[2].value is None):
                     return ast.copy_location(ast.Attribute(value=n.args[0], attr=n.args[1].value, ctx=ast.Load()), n)
                 return n
 
@@ -209,8 +239,18 @@ class Sym:
         if t in self.consts:
             return (True, self.consts[t])
         if isinstance(e, ast.Call) and self.call_eval is not None:
-            return self.call_eval(e, self)
+            r = self.call_eval(e, self)
+            if isinstance(r, ast.Constant):
+                return (True, r.value)
         return None
+
+    def resolved(self, e):
+        """A call of a lookup helper replaced by the (canonical) expression it returns under the assumptions, when that can be decided."""
+        if isinstance(e, ast.Call) and self.call_eval is not None:
+            r = self.call_eval(e, self)
+            if r is not None:
+                return r
+        return e
 
     @staticmethod
     def _literal_members(e):
@@ -243,11 +283,13 @@ class Sym:
         if isinstance(e, ast.NamedExpr):
             return self._f(e.value)
         if isinstance(e, ast.Compare) and len(e.ops) == 1:
-            op, a, b = e.ops[0], e.left, e.comparators[0]
+            op, a, b = e.ops[0], self.resolved(e.left), self.resolved(e.comparators[0])
             if isinstance(op, (ast.Is, ast.IsNot)) and isinstance(b, ast.Constant) and b.value is None:
                 c = self.const_of(a)
-                f = (c[1] is None) if c is not None else lit(f"{unparse(a)} is None")
+                f = (c[1] is None) if c is not None else False if unparse(a) in self.nonnull else lit(f"{unparse(a)} is None")
                 return f if isinstance(op, ast.Is) else neg(f)
+            if isinstance(op, (ast.Is, ast.IsNot, ast.Eq, ast.NotEq)) and isinstance(a, (ast.Name, ast.Attribute)) and unparse(a) == unparse(b):
+                return isinstance(op, (ast.Is, ast.Eq))  # the same variable / field compared with itself
             if isinstance(op, (ast.Eq, ast.NotEq)):
                 ca, cb = self.const_of(a), self.const_of(b)
                 if ca is not None and cb is not None:
@@ -344,7 +386,8 @@ def make_call_eval(ctx, fn):
                 if d is None:
                     return None
                 env[prm] = d
-        sub = Sym(None, roles=env, kinds=sym.kinds, consts=sym.consts, defs={}, call_eval=lambda c, s: call_eval(c, s, _depth + 1))
+        sub = Sym(None, roles=env, kinds=sym.kinds, consts=sym.consts, defs={}, call_eval=lambda c, s: call_eval(c, s, _depth + 1), records=sym.records, nonnull=sym.nonnull)
+        local_names = {x.id for x in ast.walk(v.node) if isinstance(x, ast.Name) and isinstance(x.ctx, ast.Store)}  # every one the evaluation binds is substituted
 
         def run(stmts):
             for s in stmts:
@@ -353,7 +396,12 @@ def make_call_eval(ctx, fn):
                 if isinstance(s, ast.Return):
                     val = sub.X(s.value) if s.value is not None else ast.Constant(value=None)
                     c = sub.const_of(val)
-                    return ("ret", c[1]) if c is not None else None
+                    if c is not None:
+                        return ("ret", ast.Constant(value=c[1]))
+                    # a value that means the same in the caller: a field of the receiver / a global, never a local of the helper
+                    if isinstance(val, (ast.Name, ast.Attribute)) and not ({x.id for x in ast.walk(val) if isinstance(x, ast.Name)} & (local_names - set(sub.roles))):
+                        return ("ret", val)
+                    return None
                 if isinstance(s, ast.If):
                     f = sub.formula(s.test)
                     if f is True:
@@ -392,9 +440,9 @@ def make_call_eval(ctx, fn):
 
         r = run(v.node.body)
         if r == "fall":
-            return (True, None)
+            return ast.Constant(value=None)
         if isinstance(r, tuple):
-            return (True, r[1])
+            return r[1]
         return None
 
     return call_eval
@@ -402,8 +450,8 @@ def make_call_eval(ctx, fn):
 
 # ---------------------------------------------------------------------------------------------- paths
 class Paths(Sym):
-    def __init__(self, fn_node, roles=None, kinds=None, consts=None, call_eval=None):
-        super().__init__(fn_node, roles, kinds, consts, None, call_eval)
+    def __init__(self, fn_node, roles=None, kinds=None, consts=None, call_eval=None, records=None, nonnull=None):
+        super().__init__(fn_node, roles, kinds, consts, None, call_eval, records, nonnull)
         self.g = CFG(fn_node)
         self._edge: dict = {}
 
@@ -548,3 +596,50 @@ def sources(expr, fn_node) -> set:
                 if nm:
                     out.add(f"call:{nm}")
     return out
+
+
+def never_none_fields(cls) -> set:
+    """`self.<field>` texts of a class whose every store (in the class and its project bases) assigns a container display /
+    constructor: such a field is never None."""
+    vals: dict = {}
+    for c in cls.mro:
+        if isinstance(c, str):
+            continue
+        fns = list(c.methods.values()) + [f for pr in c.props.values() for f in (pr.getter, pr.setter, pr.deleter) if f is not None]
+        for fn in fns:
+            for n in ast.walk(fn.node):
+                tgs = n.targets if isinstance(n, ast.Assign) else [n.target] if isinstance(n, (ast.AnnAssign, ast.AugAssign)) else n.targets if isinstance(n, ast.Delete) else []
+                for t in tgs:
+                    for x in ast.walk(t):
+                        if isinstance(x, ast.Attribute) and isinstance(x.ctx, (ast.Store, ast.Del)) and isinstance(x.value, ast.Name) and x.value.id == "self":
+                            vals.setdefault(x.attr, []).append(getattr(n, "value", None) if isinstance(n, (ast.Assign, ast.AnnAssign)) and t is x else None)
+
+    def container(v):
+        return isinstance(v, (ast.Dict, ast.List, ast.Set, ast.Tuple, ast.DictComp, ast.ListComp, ast.SetComp)) or \
+            isinstance(v, ast.Call) and isinstance(v.func, ast.Name) and v.func.id in ("dict", "list", "set", "tuple", "OrderedDict", "defaultdict")
+
+    return {f"self.{k}" for k, vs in vals.items() if vs and all(v is not None and container(v) for v in vs)}
+
+
+def record_fields(p, fn):
+    """Field names, in constructor order, of the NamedTuple / dataclass a function returns (every non-None return builds it), else None."""
+    found = None
+    for r in ast.walk(fn.node):
+        if not isinstance(r, ast.Return) or r.value is None or isinstance(r.value, ast.Constant) and r.value.value is None:
+            continue
+        v = r.value
+        if not (isinstance(v, ast.Call) and isinstance(v.func, ast.Name)):
+            return None
+        res = p.resolve_name(fn.module, v.func.id)
+        if not (res and res[0] == "class") or res[1].node is None:
+            return None
+        ci = res[1]
+        is_record = any(unparse(b).split(".")[-1] == "NamedTuple" for b in ci.node.bases) or any("dataclass" in unparse(d) for d in ci.node.decorator_list)
+        if not is_record:
+            return None
+        fields = [st.target.id for st in ci.node.body if isinstance(st, ast.AnnAssign) and isinstance(st.target, ast.Name)]
+        # the constructor arguments, in field order, are the elements
+        if found is not None and found != fields:
+            return None
+        found = fields
+    return found
